@@ -235,13 +235,15 @@ def run_protocols(F, ck):
                 if t.kind == 'obs':
                     absorbed = absorbed | t.deps
                     continue
-                nm = names.get(t.tag)
-                if nm is None:
+                cand = names.get(t.tag)
+                if not cand:
                     continue
-                nm = {'stark_betas': 'beta'}.get(nm, nm)
-                req = ORDER[proto].get(nm)
-                if req is None:
+                cand = {{'stark_betas': 'beta'}.get(x, x) for x in cand}
+                hit = [x for x in cand if x in ORDER[proto]]
+                if not hit:
                     continue
+                nm = hit[0]
+                req = ORDER[proto][nm]
                 if nm in found and nm not in ('beta', 'gamma'):
                     continue
                 found.add(nm)
